@@ -23,8 +23,9 @@ open Httpcache
 /-- An exchange that read entry `e0` from the store while the RFC-level strict conditions hold
     (unqualified no-cache, stale + must-revalidate, request no-cache) answers 504 (only-if-cached)
     or performs exactly one origin call — the client's header list plus the stored validators, no
-    deadline — and its result is: the stored response iff that call was answered 304, else the
-    origin's own reply or failure. stale-if-error, max-stale, stale-while-revalidate and immutable
+    deadline — and its result is: the stored response iff that call was answered 304 and carried no
+    precondition of the client's own in place of a stored validator (`ValidationOutcome.revalidated`),
+    else the origin's own reply (that 304 included) or failure. stale-if-error, max-stale, stale-while-revalidate and immutable
     cannot change this: the statement quantifies over all directive combinations. -/
 theorem strict_validation (cfg : Cfg) (t0 : Int) (req : Req) (tr : List Step) (r : Result)
     (h : Run (roundTrip cfg t0 req) tr r) (key : Str) (refs : List Ref) (id : Str) (e0 : Entry) (tr2 : List Step)
@@ -33,7 +34,7 @@ theorem strict_validation (cfg : Cfg) (t0 : Int) (req : Req) (tr : List Step) (r
     (hstrict : Spec.strictValidate modelReader cfg.glue.parseTime req.header (Spec.storedOfEntry (parsedEntry e0)) t0 = true) :
     (Spec.hasDirective modelReader req.header (str% "only-if-cached") = true ∧ tr2 = [] ∧ r = .resp make504) ∨
     ∃ ans tr', tr2 = Step.origin sGET (withConditional req.header (parsedEntry e0).resp.header) none ans :: tr' ∧
-      ValidationOutcome (parsedEntry e0) true (fixAns cfg ans) r ∧ contacted tr' = false ∧ spawned tr' = false := by
+      ValidationOutcome req.header (parsedEntry e0) true (fixAns cfg ans) r ∧ contacted tr' = false ∧ spawned tr' = false := by
   obtain ⟨sorted, i, hu, hrun⟩ := hit_of_trace cfg t0 req tr r h key refs id e0 tr2 htr
   have hmv := strict_implies_mv cfg.glue t0 (parsedEntry e0) req.header hs hT hstrict
   have hget := understood_is_get req hu
@@ -53,7 +54,7 @@ theorem soft_validation (cfg : Cfg) (t0 : Int) (req : Req) (tr : List Step) (r :
     (hsoft : Spec.requestMaxAgeExceeded modelReader cfg.glue.parseTime req.header (Spec.storedOfEntry (parsedEntry e0)) t0 = true) :
     (Spec.hasDirective modelReader req.header (str% "only-if-cached") = true ∧ tr2 = [] ∧ r = .resp make504) ∨
     ∃ ans tr' mv, tr2 = Step.origin sGET (withConditional req.header (parsedEntry e0).resp.header) none ans :: tr' ∧
-      ValidationOutcome (parsedEntry e0) mv (fixAns cfg ans) r ∧ contacted tr' = false ∧ spawned tr' = false := by
+      ValidationOutcome req.header (parsedEntry e0) mv (fixAns cfg ans) r ∧ contacted tr' = false ∧ spawned tr' = false := by
   obtain ⟨sorted, i, hu, hrun⟩ := hit_of_trace cfg t0 req tr r h key refs id e0 tr2 htr
   have hex := exceeded_implies_flag cfg.glue t0 (parsedEntry e0) req.header hT hsoft
   have hget := understood_is_get req hu
